@@ -35,6 +35,9 @@ def run(rp):
     for k, cc in reg.contracts.items():
         N.ATTR_KINDS[k] = cc.kind
         N.EFFECTS[k] = cc.effects
+        N.ARG_NAMES[k] = list(cc.args.keys())
+    N.HELPERS.clear()
+    N.HELPERS.update(native.get("helpers", {}))
     for g, v in c.ghost.items():
         N.GHOST[g] = v if not hasattr(v, "make") else None
     patched = []
@@ -57,7 +60,7 @@ def run(rp):
                 if is_attr:
                     setattr(owner, parts[-1], property(lambda self, _t=tgt: N.pop_call(_t)))
                 else:
-                    setattr(owner, parts[-1], (lambda _t: (lambda *a, **k: N.pop_call(_t)))(tgt))
+                    setattr(owner, parts[-1], (lambda _t: (lambda *a, **k: N.pop_call(_t, a, k)))(tgt))
                 patched.append((owner, parts[-1], orig))
             except Exception:
                 pass
@@ -139,6 +142,9 @@ def run(rp):
         out["why"] = f"real function violates {out['violated']} on the model input, but not the reported obligation {kindname}"
     else:
         out["why"] = "real function satisfies every clause on the model input"
+    if N.GHOST.get("__effect_errors__") and out["confirmed"]:
+        out["confirmed"] = False
+        out["why"] = f"ghost effects {N.GHOST['__effect_errors__']} could not be evaluated natively: the clause cannot be judged on the real run"
     return out
 
 
